@@ -284,7 +284,10 @@ func TestC06Startup(t *testing.T) {
 	defer bases.Cleanup()
 	states := []string{"lock-rolled-back", "same-size-other-root", "published-foreign-key", "published-foreign-name", "published-extension", "published-future", "lock-future",
 		"missing-checkpoint", "missing-edge-hash-tile", "missing-edge-data-tile", "missing-staging-lock-ahead", "lock-foreign-key", "lock-garbage",
-		"create-over-lock", "create-over-storage-only"}
+		"create-over-lock", "create-over-storage-only",
+		// the same with the lock one round ahead and its staging bundle still in
+		// storage (the committing instance died before publishing)
+		"same-size-other-root-staged", "published-ahead-staged", "published-foreign-key-staged"}
 	n := 0
 	for _, start := range starts {
 		for _, st := range states {
@@ -391,6 +394,32 @@ func runStartupCase(r *Run, bases *baseStates, rng *Rng, sc *startupCase) {
 		li.Abandon()
 		l2 := env.LockSTH()
 		env.W.Delete(fmt.Sprintf("staging/%d-%x", l2.Size, l2.Root))
+	case "same-size-other-root-staged", "published-ahead-staged", "published-foreign-key-staged":
+		li, err := env.Load("A", nil)
+		if err != nil {
+			env.violate("load-of-base-failed", "%v", err)
+			return
+		}
+		li.Submit(genEntry(rng, ShapeBlobX509), false)
+		simNow.Add(5)
+		_, want := (&RoundPlan{Crash: &CrashSpec{Phase: "tiles", Mask: rng.U64()}}).Install(li.In)
+		li.Sequence(want)
+		li.Abandon()
+		l2 := env.LockSTH()
+		if _, ok := env.W.Get(fmt.Sprintf("staging/%d-%x", l2.Size, l2.Root)); !ok || l2.Size != lock.Size+1 {
+			r.Count("state_not_applicable", 1)
+			return
+		}
+		var root Hash
+		copy(root[:], rng.Bytes(32))
+		switch sc.State {
+		case "same-size-other-root-staged":
+			env.W.Put("checkpoint", signWith("", nil, l2.Size, root, l2.Timestamp))
+		case "published-ahead-staged":
+			env.W.Put("checkpoint", signWith("", nil, l2.Size+1, root, l2.Timestamp))
+		case "published-foreign-key-staged":
+			env.W.Put("checkpoint", signWith("", rng.Fork("k"), lock.Size, lock.Root, lock.Timestamp))
+		}
 	case "create-over-lock":
 		create = true
 		env.W.Delete("checkpoint")
